@@ -25,7 +25,7 @@ pub fn property() -> Property {
             "H3 verif_session_pool to place an in-memory session in the real client's pool",
             "an answer arriving exactly at the deadline may go either way",
         ],
-        families: vec![(Box::new(VerdictFam), 30_000, 240_000)],
+        families: vec![(Box::new(VerdictFam), 300_000, 4_000_000)],
     }
 }
 
